@@ -297,7 +297,7 @@ sm3_hmac_submit_sse:
 .tag_store_16_31:
         movdqu  [t1 + 0*16], xmm0
         lea     t1, [t1 + 16]
-        movdqa  xmm1, xmm0
+        movdqa  xmm0, xmm1
         sub     t2, 16
         ;; fall through to store remaining tag bytes
 
